@@ -1,6 +1,94 @@
-(* C02 — placeholder while the proofs are being developed (replaced below in this branch). *)
-From ApolloVerif Require Import Base.Chars Parse.Outcome Parse.Limits.
-Theorem C02_tracker_decrement_total : forall t, ptr_current t <> 0 -> exists t', ptracker_decrement t = POk t'.
-Proof. intros t H. unfold ptracker_decrement. destruct (N.eqb_spec (ptr_current t) 0); [contradiction|eauto]. Qed.
-Check C02_tracker_decrement_total : forall t, ptr_current t <> 0 -> exists t', ptracker_decrement t = POk t'.
-Print Assumptions C02_tracker_decrement_total.
+(* C02 — The document syntax tree is lossless.
+   Property theorems only.  They speak about the parser model run on an arbitrary ITEM LIST; composed with the
+   lexer theorems (Lex/: the items of `lex_all s` are Eof-terminated, their data concatenate to s, Name tokens
+   carry names) they give the statement about source strings.
+   Known finding D3 (ty::parse drops a token): the run's ghost list pr_dropped records the dropped tokens;
+   the theorems are stated for runs that dropped no text, and C02_lossless_refuted exhibits the failure. *)
+From ApolloVerif Require Import Base.Chars Lex.Item Parse.Outcome Parse.Builder Parse.Limits Parse.Monad
+  Parse.Grammar Parse.Entry Parse.LosslessDefs Parse.Lossless.
+
+(* the known class: a ty::parse call popped a token with text that is neither a Name nor `[` *)
+Definition Known_D3 (r : presult) : Prop := ne (map tok_data (pr_dropped r)) <> [].
+
+Theorem C02_lossless : forall dbg rl items r,
+  Forall item_name_ok items -> eof_terminated items ->
+  parse_document_items dbg rl items = POk r -> ~ Known_D3 r ->
+  p_text_of (pr_tree r) = concat (map item_data items).
+Proof.
+  intros dbg rl items r Hn He E Hk. eapply document_lossless; eauto.
+  destruct (ne (map tok_data (pr_dropped r))) eqn:Hd; [reflexivity|]. exfalso. apply Hk. unfold Known_D3. now rewrite Hd.
+Qed.
+Check C02_lossless : forall dbg rl items r,
+  Forall item_name_ok items -> eof_terminated items ->
+  parse_document_items dbg rl items = POk r -> ~ Known_D3 r ->
+  p_text_of (pr_tree r) = concat (map item_data items).
+Print Assumptions C02_lossless.
+
+(* every item's text appears exactly once, in order, as the text of one token of the tree
+   (ne = the non-empty texts: the Eof token and the limit error carry none) *)
+Theorem C02_each_item_once : forall dbg rl items r,
+  Forall item_name_ok items -> eof_terminated items ->
+  parse_document_items dbg rl items = POk r -> ~ Known_D3 r ->
+  ne (map snd (p_leaves (pr_tree r))) = ne (map item_data items).
+Proof.
+  intros dbg rl items r Hn He E Hk. eapply document_chunks; eauto.
+  destruct (ne (map tok_data (pr_dropped r))) eqn:Hd; [reflexivity|]. exfalso. apply Hk. unfold Known_D3. now rewrite Hd.
+Qed.
+Check C02_each_item_once : forall dbg rl items r,
+  Forall item_name_ok items -> eof_terminated items ->
+  parse_document_items dbg rl items = POk r -> ~ Known_D3 r ->
+  ne (map snd (p_leaves (pr_tree r))) = ne (map item_data items).
+Print Assumptions C02_each_item_once.
+
+(* the standalone type entry is lossless too (since the repair of D1/D7) *)
+Theorem C02_lossless_type_entry : forall dbg rl items r,
+  Forall item_name_ok items -> eof_terminated items ->
+  parse_type_items dbg rl items = POk r -> ~ Known_D3 r ->
+  p_text_of (pr_tree r) = concat (map item_data items).
+Proof.
+  intros dbg rl items r Hn He E Hk. eapply type_lossless; eauto.
+  destruct (ne (map tok_data (pr_dropped r))) eqn:Hd; [reflexivity|]. exfalso. apply Hk. unfold Known_D3. now rewrite Hd.
+Qed.
+Check C02_lossless_type_entry : forall dbg rl items r,
+  Forall item_name_ok items -> eof_terminated items ->
+  parse_type_items dbg rl items = POk r -> ~ Known_D3 r ->
+  p_text_of (pr_tree r) = concat (map item_data items).
+Print Assumptions C02_lossless_type_entry.
+
+(* D3: `type T{f:[!}` — the `!` is popped by ty::parse and never reaches the tree *)
+Definition ex_d3 : list item :=
+  [ITok TkName [116;121;112;101] 0; ITok TkWhitespace [32] 4; ITok TkName [84] 5; ITok TkLCurly [123] 6;
+   ITok TkName [102] 7; ITok TkColon [58] 8; ITok TkLBracket [91] 9; ITok TkBang [33] 10;
+   ITok TkRCurly [125] 11; ITok TkEof [] 12].
+
+Theorem C02_lossless_refuted : exists items r,
+  Forall item_name_ok items /\ eof_terminated items /\
+  parse_document_items false 500 items = POk r /\
+  p_text_of (pr_tree r) <> concat (map item_data items).
+Proof.
+  exists ex_d3. eexists. split; [|split; [|split]].
+  - repeat constructor.
+  - exists (removelast ex_d3), 12. split; [reflexivity|]. repeat constructor.
+  - vm_compute. reflexivity.
+  - vm_compute. discriminate.
+Qed.
+Check C02_lossless_refuted : exists items r,
+  Forall item_name_ok items /\ eof_terminated items /\
+  parse_document_items false 500 items = POk r /\
+  p_text_of (pr_tree r) <> concat (map item_data items).
+Print Assumptions C02_lossless_refuted.
+
+(* non-vacuity: `{ a }` meets every hypothesis, and a lexical error inside a document does too *)
+Definition ex_ok : list item :=
+  [ITok TkLCurly [123] 0; ITok TkWhitespace [32] 1; ITok TkName [97] 2; IErr ELex [233] 3;
+   ITok TkWhitespace [32] 5; ITok TkRCurly [125] 6; ITok TkEof [] 7].
+Example C02_nonvacuous : exists r,
+  Forall item_name_ok ex_ok /\ eof_terminated ex_ok /\
+  parse_document_items false 500 ex_ok = POk r /\ ~ Known_D3 r /\
+  p_text_of (pr_tree r) = [123; 32; 97; 233; 32; 125].
+Proof.
+  eexists. split; [repeat constructor|]. split.
+  - exists (removelast ex_ok), 7. split; [reflexivity|]. repeat constructor.
+  - split; [vm_compute; reflexivity|]. split; [|vm_compute; reflexivity].
+    unfold Known_D3. vm_compute. intros H. apply H. reflexivity.
+Qed.
